@@ -50,6 +50,7 @@ def enumerate_faults(d):
         out.append({"kind": "snoise_reading_extra", "at": key})
         for r in sd["readings"]:
             out.append({"kind": "sensor_uses_undeclared", "at": [key, r]})
+            out.append({"kind": "sensor_uses_two_undeclared", "at": [key, r]})
             for u in U:
                 out.append({"kind": "sensor_uses_control", "at": [key, r], "with": u})
             out.append({"kind": "snoise_reading_missing", "at": [key, r]})
@@ -109,6 +110,11 @@ def apply_fault(d, f):
         key, r = at
         if key in d["sensors"] and r in d["sensors"][key]["readings"]:
             d["sensors"][key]["readings"][r] = "Add(%s, Symbol('%s'))" % (d["sensors"][key]["readings"][r], NEW + "_u")
+    elif k == "sensor_uses_two_undeclared":
+        key, r = at
+        if key in d["sensors"] and r in d["sensors"][key]["readings"]:
+            other = d["control"][0] if d["control"] else NEW + "_v"
+            d["sensors"][key]["readings"][r] = "Add(%s, Symbol('%s'), Symbol('%s'))" % (d["sensors"][key]["readings"][r], NEW + "_u", other)
     elif k == "snoise_sensor_missing":
         if at in d["sensors"]:
             d["sensors"][at]["noise"] = None
